@@ -66,7 +66,7 @@ def main(tier):
         if res["status"] != want:
             raise MachineryError("FastStorage %s: expected %s, got %s\n%s" % (cfg, want, res["status"], res["output"][-1500:]))
         run.add_mc("FastStorage/" + cfg, res)
-    jobs = corpus.all_singles(sd) + corpus.draw(n, sd, dedicated_bias=0.5)
+    jobs = corpus.all_singles(sd, tier=tier) + corpus.draw(n, sd, dedicated_bias=0.5)
     jobs += corpus.draw(12 if tier == "quick" else 150, sd + 7, families=["diamonds", "branch", "inplace"])
     for cfg, want in (("WeightBuffer_MC.cfg", "ok"), ("WeightBuffer_Broken.cfg", "invariant")):
         res = tlc.run("WeightBuffer", cfg, workers=8, timeout=900)
